@@ -1,7 +1,7 @@
 from .base import *
 
 ID = 'C15'
-THEOREMS = ['C15_cos_encoding', 'C15_sin_encoding', 'C15_tan', 'C15_adj_opp', 'C15_cos_value', 'C15_sin_value', 'C15_acc_inhabited']
+THEOREMS = ['C15_cos_encoding', 'C15_sin_encoding', 'C15_tan', 'C15_adj_opp', 'C15_cos_value', 'C15_sin_value', 'C15_acc_inhabited', 'C15_pythagoras']
 OWNED = {'GCos', 'GSin', 'GTan', 'GAdj', 'GOpp'}
 RULE = ('canonical angles in all four quadrants, on the axes and within ulps / 1e-15 / 1e-10 of them, blades to 2^40; magnitudes over the domain; cos, sin, tan vs sin/cos, adj, opp. '
         'non-trivial = owned op result differs from its operands')
